@@ -314,6 +314,7 @@ impl FrameEncoder {
 //@@ end
 
 //@@ fn file=fe2o3-amqp/src/frames/amqp.rs impl=`impl FrameEncoder` name=encode_transfer
+//@@ shape loops=while;stmt-1=Ok (
 //@@ subst `use serde_amqp::ser::Serializer;` => `` rule=R6
 //@@ subst `&buf[..]` => `buf.as_slice()` rule=R22
 //@@ spec
